@@ -57,6 +57,7 @@ class Contract:
         # exception-effect contracts: unknown_calls='may-raise' makes every operation the model does not track (calls of
         # functions without contract, operations on untracked values, unsupported constructs) return an untracked value
         # and possibly raise Exception; no_raise_calls lists callee texts assumed total (recorded as assumptions)
+        self.solver_order = None      # optional: portfolio stages to try first for this contract's VCs
         self.unknown_calls = unknown_calls
         self.no_raise_calls = list(no_raise_calls)
         self.lemmas = list(lemmas)     # extra axioms (strings) assumed at entry: recorded as assumptions
